@@ -53,6 +53,40 @@ CLAIMED["C01"] = dict(
         "sniffing are oracles supplied by the harness. Trusted: Coq kernel, translator, harness (SecsBeforeDump=-1, async flush awaited). No axioms.",
    technique="Rocq refinement proof (simulation invariant over all histories) of an executable bucket model to a reference map; model tied to code by differential trace replay",
    design="6/C01 + Appendix A")
+CLAIMED["C15"] = dict(
+   text="Theorems (coq/props/C15.v): for every 64-bit hash the bucket id is exactly its leading 0/1/2 hex digits (h / 2^60, h / 2^56), in "
+        "particular for the key hash of every key; bucket directory names are injective; the configured bucket counts give depths 0/1/2. "
+        "Correspondence on real stores with 1/16/256 buckets and served subsets none/one/some/all: every key is read back iff its bucket is "
+        "served, its record lies in exactly the directory of that bucket (independent record scanner over every file), unserved buckets get no "
+        "file, and '@' listings above / at / below the bucket depth equal the model's aggregate of the per-bucket merkle roots (*97 rule).",
+   note="'stores nothing / writes only in its own directory' and 'upper listing = aggregate' are established by correspondence + oracle over the "
+        "real HStore, the digit arithmetic by theorem. Trusted: Coq kernel, translator, harness, python oracle. No axioms.",
+   technique="Rocq proof of the digit/bucket arithmetic + differential correspondence on whole stores",
+   design="6/C15")
+CLAIMED["C11"] = dict(
+   text="Theorems (coq/props/C11.v) over a byte-level model of Request.Read / Process / Response.Write / ServeOnce / Serve that is parametric "
+        "in the storage client: for EVERY byte stream and EVERY storage behaviour a ServeOnce that keeps the connection open consumes >= 1 "
+        "byte and the serve loop terminates (extra fuel changes nothing); a set whose header announces n bytes is parsed with exactly those "
+        "n bytes as value whatever they contain (CR/LF/NUL/keywords) and exactly the rest left over. The one-reply clause is REFUTED for the "
+        "code as it stands (C11_dir17_refuted, known finding F5). Correspondence: 150 stores x 1..3 connections x 4..17 commands over all "
+        "verbs + 40% mutated streams through the real ServerConn/StorageClient/HStore, reply bytes compared with the model after "
+        "canonicalisation; grammatical streams are fed command by command so each reply is attributed, and a python grammar oracle judges "
+        "'exactly one reply of the right kind per command'.",
+   note="PARTIAL: request/response print-parse round trips and 'malformed input is contained' are covered by correspondence, not yet by "
+        "theorems. TCP, timeouts (RECV/PROCESS_TIMEOUT) and goroutine scheduling are not modelled; one modelled artefact of the timeout test: the "
+        "reply to a bare-LF first line is swallowed. Trusted: Coq kernel, harness, python oracle. No axioms.",
+   technique="Rocq proof of progress/termination and binary safety over a protocol model parametric in storage; refutation witness; differential correspondence",
+   design="6/C11")
+CLAIMED["C12"] = dict(
+   text="Theorems (coq/props/C12.v): for EVERY byte stream and EVERY storage behaviour (panics included) all request tokens taken are returned "
+        "(C12_tokens_returned); every command on which the storage client honours the buffer hand-over contract leaves SetData and GetData exactly "
+        "unchanged (C12_balance_partial, with the executable predicate `clean`); the unrestricted balance is REFUTED for the code as it stands "
+        "(C12_leaks_refuted, known findings F6-F8). The accounting model (ghost counters threaded through the protocol model) predicts the exact "
+        "residue of every stream, leaks included, and is compared with cmem.DBRL and the token channel after flush + idle on every case.",
+   note="PARTIAL: FlushData/AllocRL are compared (expected zero unless a recorded leak carries a C allocation) but not modelled; concurrent "
+        "connections and counter races are not modelled. Trusted: Coq kernel, harness, python oracle. No axioms.",
+   technique="Rocq proof of token conservation (all streams) and per-command buffer balance under an explicit contract; refutation witness; differential accounting correspondence",
+   design="6/C12")
 NOT_YET = {}
 props = [json.loads(l) for l in open(os.path.join(V, "properties.jsonl"))]
 checks = []
